@@ -1,6 +1,156 @@
 import TabulaModel.Util
-namespace Tabula.C12H
+import TabulaModel.Model.Chunk
+import TabulaModel.Model.ChunkLayout
+/-!
+Line protocol of C12 (see `harness/c12/gen.go: docWire`, `layout.go: layoutWire`).
 
-def handle (_op : String) (_args : List String) : String := "bad-op"
+* `c12.chunk s=<split table> d=<doc>` — element-based chunker
+* `c12.lchunk <max> <min> <minHeadingLevel> <keepLists> <hex idPrefix> <hex title> d=<layout doc>`
+
+Reply: `<idx>,<hex id>,<total>,<pageStart>,<pageEnd>,<hex+hex…|~>,<hex text>` joined by `;`, or `none`.
+-/
+namespace Tabula.C12H
+open Tabula Tabula.Chunk
+
+def toStr (b : Bytes) : Str := b.map (·.toNat)
+def ofStr (s : Str) : Bytes := s.map UInt8.ofNat
+def hexS (s : Str) : String := hex (ofStr s)
+def unhexS (s : String) : Option Str := (unhex s).map toStr
+
+def splitNE (s : String) (sep : String) : List String :=
+  if s == "" then [] else s.splitOn sep
+
+def parseLevelHex (s : String) : Option (Int × Str) :=
+  match s.splitOn "=" with
+  | [l, h] => do
+    let l ← l.toInt?
+    let h ← unhexS h
+    pure (l, h)
+  | _ => none
+
+/-- pieces of a text: `<start>.<len>` (substring) or `x<hex>` -/
+def parsePiece (text : Str) (s : String) : Option Str :=
+  if s.startsWith "x" then unhexS (s.drop 1).toString
+  else match s.splitOn "." with
+    | [a, b] => do
+      let a ← a.toNat?
+      let b ← b.toNat?
+      pure ((text.drop a).take b)
+    | _ => none
+
+def parsePieces (text : Str) (s : String) : Option (List Str) :=
+  (splitNE s "+").mapM (parsePiece text)
+
+def parseSplitEntry (s : String) : Option (Str × List Str) :=
+  match s.splitOn ":" with
+  | [t, ps] => do
+    let t ← unhexS t
+    let ps ← parsePieces t ps
+    pure (t, ps)
+  | _ => none
+
+def parseRow (s : String) : Option (List Str) :=
+  if s.startsWith "r" then (splitNE (s.drop 1).toString ",").mapM unhexS else none
+
+def parseElem (s : String) : Option Elem :=
+  match s.splitOn "." with
+  | ["h", l, t] => do
+    let l ← l.toInt?
+    let t ← unhexS t
+    pure (.heading l t)
+  | ["p", t] => (unhexS t).map .para
+  | ["l", o, items] => do
+    let its ← (splitNE items ",").mapM parseLevelHex
+    pure (.list (o == "o") its)
+  | ["t", rows] => do
+    let rs ← (splitNE rows ";").mapM parseRow
+    pure (.table rs)
+  | ["i", t] => (unhexS t).map .image
+  | _ => none
+
+def parsePage (s : String) : Option Page :=
+  match s.splitOn ":" with
+  | [n, lay, es] => do
+    let n ← n.toInt?
+    let lay ← if lay == "~" then some none else ((splitNE lay ",").mapM parseLevelHex).map some
+    let es ← (splitNE es "|").mapM parseElem
+    pure ⟨n, lay, es⟩
+  | _ => none
+
+def dumpChunk (c : Chunk) : String :=
+  let path := if c.path.isEmpty then "~" else "+".intercalate (c.path.map hexS)
+  s!"{c.idx},{hexS c.id},{c.total},{c.pageStart},{c.pageEnd},{path},{hexS c.text}"
+
+def dumpChunks (cs : List Chunk) : String :=
+  if cs.isEmpty then "none" else ";".intercalate (cs.map dumpChunk)
+
+def lookupSplit (tbl : List (Str × List Str)) : Splitter := fun t =>
+  (tbl.find? fun e => e.1 == t).map (·.2)
+
+/-! layout-based chunker -/
+
+/-- split `body[^pieces]`; the pieces index into `textOf body` -/
+def withSents {α} (s : String) (parse : String → Option α) (textOf : α → Str) : Option (α × List Str) :=
+  match s.splitOn "^" with
+  | [a] => (parse a).map fun x => (x, [])
+  | [a, ps] => do
+    let x ← parse a
+    let p ← parsePieces (textOf x) ps
+    pure (x, p)
+  | _ => none
+
+open Tabula.ChunkLayout in
+def parseLH (s : String) : Option LHeading :=
+  if s.startsWith "H" then
+    (withSents (s.drop 1).toString parseLevelHex (·.2)).map fun (h, ss) => ⟨h.1, h.2, ss⟩
+  else none
+
+open Tabula.ChunkLayout in
+def parseLP (s : String) : Option LPara :=
+  if s.startsWith "P" then
+    (withSents (s.drop 1).toString
+      (fun a => if a.endsWith "!" then (unhexS (a.dropEnd 1).toString).map fun t => (t, true)
+                else (unhexS a).map fun t => (t, false))
+      (·.1)).map fun (p, ss) => ⟨p.1, p.2, ss⟩
+  else none
+
+open Tabula.ChunkLayout in
+def parseLL (s : String) : Option LList :=
+  if s.startsWith "L" then
+    (withSents (s.drop 1).toString (fun a => (splitNE a ",").mapM parseLevelHex) formatList).map
+      fun (its, ss) => ⟨its, ss⟩
+  else none
+
+open Tabula.ChunkLayout in
+def parseLPage (numbered : String) : Option LPage :=
+  match numbered.splitOn "@" with
+  | [n, s] => do
+    let n ← n.toInt?
+    if s == "~" then pure ⟨n, none⟩ else
+    match s.splitOn ":" with
+    | [hs, ps, ls] => do
+      let hs ← (splitNE hs "|").mapM parseLH
+      let ps ← (splitNE ps "|").mapM parseLP
+      let ls ← (splitNE ls "|").mapM parseLL
+      pure ⟨n, some ⟨hs, ps, ls⟩⟩
+    | _ => none
+  | _ => none
+
+def handle (op : String) (args : List String) : String :=
+  match op, args with
+  | "c12.chunk", [s, d] =>
+    if !(s.startsWith "s=" && d.startsWith "d=") then "bad-op" else
+    match (splitNE (s.drop 2).toString ",").mapM parseSplitEntry,
+          (splitNE (d.drop 2).toString "/").mapM parsePage with
+    | some tbl, some doc => dumpChunks (chunkDocument (lookupSplit tbl) doc)
+    | _, _ => "bad-op"
+  | "c12.lchunk", [mx, mn, mhl, keep, pfx, title, d] =>
+    if !(d.startsWith "d=") then "bad-op" else
+    match mx.toInt?, mn.toInt?, mhl.toInt?, unhexS pfx, unhexS title,
+          (splitNE (d.drop 2).toString "/").mapM parseLPage with
+    | some mx, some mn, some mhl, some pfx, some title, some doc =>
+      dumpChunks (ChunkLayout.chunk ⟨mx, mn, mhl, keep == "1", pfx⟩ title doc)
+    | _, _, _, _, _, _ => "bad-op"
+  | _, _ => "bad-op"
 
 end Tabula.C12H
